@@ -2,17 +2,30 @@
 import numpy as np
 
 import gen
-from common import L, ModelRaise, exc_kind
+from common import L, I, ModelRaise, exc_kind
 
-RULE = ("closed outward-oriented meshes: voxel solids (L/U/C/T/plus/frames/random, unit-square faces), extruded simple "
-        "polygons with triangulated caps, radially perturbed triangulated hulls, Polyhedron copies of convex solids; "
-        "random rigid placement (rotation, offset <= 10 diameters, scale 1e-3..1e3); distinct = distinct (vertices, faces)")
+RULE = ("closed outward-oriented meshes: voxel solids (L/U/C/T/plus/frames incl. genus 1/stairs/cup/cage/random, unit-square "
+        "faces), extruded simple polygons with triangulated caps (straight and tapered: trapezoidal side faces), radially "
+        "perturbed triangulated hulls, Polyhedron copies of convex solids (faces of degree 3..12), prisms over regular "
+        "n-gons with n-gonal caps (n up to 360); faces cyclically relabelled, vertices renumbered, faces reordered; rigid "
+        "placement (random / near-axis / no rotation, offset <= 10 diameters, scale 1e-3..1e3 and 2^-30..2^30); a third "
+        "reached through a history of mutators; queries in random order; outside the property's scope (correspondence "
+        "only): extrusions with non-convex polygonal caps (reflex first corner included); distinct = distinct "
+        "(vertices, faces)")
 ASSUMPTIONS = [
     "exact integrals over the solid = sums of tetrahedron closed forms (Spec/Solid.lean) over the generator's own "
-    "tetrahedralisation (Kuhn tetrahedra of voxels / prisms over an exact ear clipping / cones of a star-shaped hull), "
-    "evaluated exactly over Q by the driver on the placed coordinates",
-    "face areas are inputs of the volume model (contract: equal to the independently computed polygon areas, checked)",
+    "tetrahedralisation (Kuhn tetrahedra of voxels / prisms and frusta over an exact ear clipping / cones of a "
+    "star-shaped hull), evaluated exactly over Q by the driver on the placed coordinates",
+    "hypotheses of poly_centroid_exact / poly_inertia_exact evaluated per case, exactly over Q, on the implementation's "
+    "own surface triangulation S: chainCheck(S, boundary of the cone over S) [sound: Lemmas/ChainCheck], vol > 0",
+    "hypotheses of poly_volume_exact_faces evaluated per face, exactly over Q, where the placed faces are exactly planar "
+    "(triangles; unrotated voxel / straight-extrusion faces): Poly3.faceCheck [sound: faceCheck_sound]; that "
+    "ConvexPolygon keeps the cyclic vertex order is checked on the implementation",
+    "external inputs of the get_face_area model (Qhull vertex count, Kabsch-aligned vertices) are taken from the same "
+    "library calls the implementation makes",
 ]
+
+KNOWN_BIG_NGON = 360   # regular n-gon caps with n >= 350: polytri finds no ear (known finding, see notes)
 
 
 def orient_tets(tets):
@@ -25,37 +38,92 @@ def orient_tets(tets):
     return out
 
 
-def make_mesh(rng, ctx):
+# ----------------------------------------------------------------------------------------------- generators
+
+def _prism_over(poly, tris, z0, z1, top=None, caps="tri"):
+    """(V, F, T) of the (possibly tapered) prism over the ccw polygon `poly` (n,2) with the triangulation `tris`
+    (index triples); `top` = the top polygon (a homothetic copy of poly: side faces are planar trapezoids)."""
+    poly = np.asarray(poly, dtype=float)
+    top = poly if top is None else np.asarray(top, dtype=float)
+    n = len(poly)
+    V = np.vstack([np.c_[poly, np.full(n, z0)], np.c_[top, np.full(n, z1)]])
+    F, T = [], []
+    for (i, j, k) in tris:
+        if caps == "tri":
+            F.append([k, j, i])                 # bottom cap, seen from below
+            F.append([n + i, n + j, n + k])     # top cap
+        a0, b0, c0 = V[i], V[j], V[k]
+        a1, b1, c1 = V[n + i], V[n + j], V[n + k]
+        T += [[a0, b0, c0, c1], [a0, b0, c1, b1], [a0, b1, c1, a1]]
+    if caps == "poly":
+        F.append(list(range(n - 1, -1, -1)))
+        F.append(list(range(n, 2 * n)))
+    for i in range(n):
+        j = (i + 1) % n
+        F.append([i, j, n + j, n + i])
+    return V, F, T
+
+
+def _extruded(rng):
+    while True:
+        try:
+            return gen.c05_extruded_polygon(rng)
+        except RuntimeError:
+            continue
+
+
+def make_mesh(rng, ctx, force=None):
     r = rng.random()
-    if r < 0.4:
+    scope = True          # inside the property's quantifier (convex faces)
+    if force == "big-ngon":
+        n = KNOWN_BIG_NGON
+        th = 2 * np.pi * np.arange(n) / n
+        poly = np.c_[np.cos(th), np.sin(th)]
+        tris = [(0, j, j + 1) for j in range(1, n - 1)]
+        V, F, T = _prism_over(poly, tris, 0.0, 1.0, caps="poly")
+        kind = "ngon-prism:%d" % n
+    elif force == "big-scale":
+        m = gen.c05_voxel_solid(np.random.default_rng(3), "L")
+        V, F, T = np.array(m["vertices"], dtype=float), [list(f) for f in m["faces"]], m["tets"]
+        kind = m["kind"] + ":2^30-rotated-at-origin"
+    elif r < 0.30:
         m = gen.c05_voxel_solid(rng)
         V, F, T = np.array(m["vertices"], dtype=float), [list(f) for f in m["faces"]], m["tets"]
         kind = m["kind"]
-    elif r < 0.6:
-        while True:
-            try:
-                m = gen.c05_extruded_polygon(rng)
-                break
-            except RuntimeError:
-                continue
+    elif r < 0.42:
+        m = _extruded(rng)
         poly = np.array(m["poly"], dtype=float)
-        n = len(poly)
-        tris = gen.ear_clip_exact(poly.tolist())
-        z0, z1 = m["z0"], m["z1"]
-        V = np.vstack([np.c_[poly, np.full(n, z0)], np.c_[poly, np.full(n, z1)]])
-        F = []
-        T = []
-        for (i, j, k) in tris:
-            F.append([k, j, i])                 # bottom cap, seen from below
-            F.append([n + i, n + j, n + k])     # top cap
-            a0, b0, c0 = V[i], V[j], V[k]
-            a1, b1, c1 = V[n + i], V[n + j], V[n + k]
-            T += [[a0, b0, c0, c1], [a0, b0, c1, b1], [a0, b1, c1, a1]]
-        for i in range(n):
-            j = (i + 1) % n
-            F.append([i, j, n + j, n + i])
+        V, F, T = _prism_over(poly, gen.ear_clip_exact(poly.tolist()), m["z0"], m["z1"])
         kind = m["kind"] + ":tricaps"
-    elif r < 0.8:
+    elif r < 0.54:
+        # tapered extrusion (frustum over a simple polygon): the top is a homothetic copy, so the side faces are
+        # planar trapezoids whose vertex mean is NOT their centroid
+        m = _extruded(rng)
+        poly = np.array(m["poly"], dtype=float)
+        s = float(rng.choice([0.5, 0.75, 1.5])) if rng.random() < 0.6 else float(rng.uniform(0.4, 1.6))
+        c = poly.mean(axis=0) + rng.uniform(-0.5, 0.5, size=2)
+        sh = rng.uniform(-0.5, 0.5, size=2) if rng.random() < 0.5 else np.zeros(2)
+        top = c + s * (poly - c) + sh
+        V, F, T = _prism_over(poly, gen.ear_clip_exact(poly.tolist()), m["z0"], m["z1"], top=top)
+        kind = "tapered:" + m["kind"].split(":")[1]
+    elif r < 0.60:
+        # right prism over a regular or irregular convex n-gon with n-gonal caps (faces of high degree)
+        n = int(rng.integers(5, 13)) if rng.random() < 0.8 else int(rng.integers(13, 60))
+        th = np.sort(rng.uniform(0, 2 * np.pi, size=n)) if rng.random() < 0.5 else 2 * np.pi * np.arange(n) / n
+        if np.min(np.diff(np.r_[th, th[0] + 2 * np.pi])) < 0.5 * 2 * np.pi / n / 4:
+            th = 2 * np.pi * np.arange(n) / n
+        poly = np.c_[np.cos(th), np.sin(th)] * rng.uniform(0.5, 2.0)
+        tris = [(0, j, j + 1) for j in range(1, n - 1)]
+        V, F, T = _prism_over(poly, tris, 0.0, float(rng.uniform(0.3, 2.0)), caps="poly")
+        kind = "ngon-prism:%d" % n
+    elif r < 0.66:
+        # OUTSIDE the property's scope (non-convex faces): extrusion with polygonal caps; correspondence only
+        m = _extruded(rng)
+        poly = np.array(m["poly"], dtype=float)
+        V, F, T = _prism_over(poly, gen.ear_clip_exact(poly.tolist()), m["z0"], m["z1"], caps="poly")
+        kind = m["kind"] + ":polycaps"
+        scope = False
+    elif r < 0.82:
         # radially perturbed triangulated hull: star-shaped about the origin
         from scipy.spatial import ConvexHull
         while True:
@@ -86,49 +154,141 @@ def make_mesh(rng, ctx):
         F = [list(map(int, f)) for f in cp.faces]
         T, _, _ = gen.cone_tets(V)
         kind = "convex-copy:" + info["kind"]
+    V = np.asarray(V, dtype=float)
+    F = [list(map(int, f)) for f in F]
+    # relabelling: every face starts at a random vertex of its cycle; vertices renumbered; faces reordered
+    if force is None and rng.random() < 0.5:
+        F = [f[k:] + f[:k] for f, k in ((f, int(rng.integers(len(f)))) for f in F)]
+        perm = rng.permutation(len(V))
+        inv = np.empty(len(V), dtype=int)
+        inv[perm] = np.arange(len(V))
+        V = V[perm]
+        F = [[int(inv[i]) for i in f] for f in F]
+        F = [F[i] for i in rng.permutation(len(F))]
+        ctx.count("relabelled")
     # rigid placement applied to vertices and tetrahedra alike
-    scale = 1.0 if rng.random() < 0.6 else float(10 ** rng.uniform(-3, 3))
-    R = gen.random_rotation(rng) if rng.random() < 0.6 else np.eye(3)
+    rs = rng.random()
+    if force == "big-scale":
+        scale = 2.0 ** 30
+    elif force is not None or rs < 0.5:
+        scale = 1.0
+    elif rs < 0.8:
+        scale = float(10 ** rng.uniform(-3, 3))
+    else:
+        scale = float(2.0 ** int(rng.integers(-30, 31)))
+        ctx.count("scale:2^k-extreme")
+    rr = rng.random()
+    if force == "big-scale":
+        R, rot = gen.random_rotation(np.random.default_rng(3)), "rotated"
+    elif force is not None or rr < 0.35:
+        R, rot = np.eye(3), "axis-aligned"
+    elif rr < 0.55:
+        R, rot = gen.near_axis_rotation(rng), "near-axis"
+    else:
+        R, rot = gen.random_rotation(rng), "rotated"
     dia = gen.diameter(V) * scale
     off = np.zeros(3)
-    if rng.random() < 0.7:
+    if force is None and rng.random() < 0.7:
         u = rng.normal(size=3)
         off = u / np.linalg.norm(u) * float(rng.uniform(0, 10)) * dia
     place = lambda x: (np.asarray(x, dtype=float) * scale) @ R.T + off
     Vp = place(V)
     Tp = [place(np.array(t)) for t in T]
-    ctx.count("kind:" + kind.split(":")[0] + (":" + kind.split(":")[1] if kind.startswith("voxel") else ""))
-    ctx.count("rotated" if not np.allclose(R, np.eye(3)) else "axis-aligned")
+    k0 = kind.split(":")[0]
+    ctx.count("kind:" + k0 + (":" + kind.split(":")[1] if k0 in ("voxel", "tapered", "extruded") else "")
+              + (":polycaps" if kind.endswith("polycaps") else ""))
+    ctx.count(rot)
     ctx.count("scale!=1" if scale != 1.0 else "scale=1")
-    return {"kind": kind, "vertices": Vp.tolist(), "faces": F, "tets": [t.tolist() for t in Tp], "scale": scale}
+    ctx.count("maxdegree:%s" % ("3" if max(map(len, F)) == 3 else "4" if max(map(len, F)) == 4 else ">4"))
+    return {"kind": kind, "vertices": Vp.tolist(), "faces": F, "tets": [t.tolist() for t in Tp], "scale": scale,
+            "scope": scope, "exact_planar": rot == "axis-aligned" and k0 in ("voxel", "extruded", "ngon-prism")}
+
+
+# ----------------------------------------------------------------------------------------------- one case
+
+def face_aux(V, f):
+    """external inputs of the get_face_area model for one face: Qhull's vertex count inside `_is_convex` and the
+    Kabsch-aligned centred vertices `_reorder_verts` sorts (the same library calls the implementation makes)"""
+    from coxeter.shapes.polygon import _align_points_by_normal
+    from scipy.spatial import ConvexHull
+    P = V[f]
+    c = np.cross(P[2] - P[1], P[0] - P[1])
+    nrm = np.linalg.norm(c)
+    if nrm == 0 or not np.all(np.isfinite(c / nrm)):
+        return 0, np.zeros_like(P)
+    n = c / nrm
+    try:
+        v2, _ = _align_points_by_normal(n, P)
+        hull = len(ConvexHull(v2[:, :2]).vertices)
+    except Exception:  # noqa: BLE001  (Qhull refuses a degenerate face)
+        return None, None
+    rot, _ = _align_points_by_normal(n, P - np.mean(P, axis=0))
+    return hull, rot
+
+
+def guarded(thunk):
+    try:
+        return ("ok", thunk())
+    except Exception as e:  # noqa: BLE001
+        return ("err", exc_kind(e), repr(e))
 
 
 def eval_case(ctx, case):
     import coxeter
-    from coxeter.extern.polytri import polytri
+    import history
+    from common import read_shuffled
     V = np.array(case["vertices"], dtype=float)
     F = [list(f) for f in case["faces"]]
+    scope = case.get("scope", True)
+    big = case["kind"].startswith("ngon-prism") and max(map(len, F)) >= 350
     d = gen.diameter(V)
     Ls = d + float(np.linalg.norm(V.mean(axis=0)))
     try:
         p = coxeter.shapes.Polyhedron(V, [np.array(f) for f in F])
-        # a third of the cases: the same solid reached through a history (scaled, shifted copy; every query read once;
-        # size and centroid setters) - harness/history.py; and always: measures read in an order drawn per case
-        import history
-        from common import read_shuffled
+    except Exception as e:
+        ctx.fail("Polyhedron:raises", "constructor raised %s on a valid closed mesh" % exc_kind(e), case, repr(e))
+        return
+    # a third of the cases: the same solid reached through a history (scaled, shifted copy; every query read once;
+    # size and centroid setters) - harness/history.py; and always: measures read in an order drawn per case
+    if scope and not big:
         p, _how = history.maybe_via_history(p, history.rng_for(V), 0.33, ctx)
         if _how.startswith("via"):
             V = np.array(p.vertices, dtype=float)       # B below is about the object's own (re-reached) vertices
-        obs, _order = read_shuffled({
-            "volume": lambda: float(p.volume), "area": lambda: float(p.surface_area),
-            "face_areas": lambda: np.array(p.get_face_area(), dtype=float),
-            "centroid": lambda: np.array(p.centroid, dtype=float),
-            "inertia": lambda: np.array(p.inertia_tensor, dtype=float)}, case["vertices"])
-        tri_impl = [np.array(t) for t in p._surface_triangulation()]
-    except Exception as e:
-        ctx.fail("Polyhedron:raises", "constructor or a measure raised %s on a valid closed mesh" % exc_kind(e),
-                 case, repr(e))
-        return
+            d = gen.diameter(V)
+            Ls = d + float(np.linalg.norm(V.mean(axis=0)))
+    res, _order = read_shuffled({
+        "volume": lambda: guarded(lambda: float(p.volume)),
+        "area": lambda: guarded(lambda: float(p.surface_area)),
+        "face_areas": lambda: guarded(lambda: np.array(p.get_face_area(), dtype=float)),
+        "centroid": lambda: guarded(lambda: np.array(p.centroid, dtype=float)),
+        "inertia": lambda: guarded(lambda: np.array(p.inertia_tensor, dtype=float))}, case["vertices"])
+    tri_res = guarded(lambda: [np.array(t) for t in p._surface_triangulation()])
+    obs = {k: v[1] for k, v in res.items() if v[0] == "ok"}
+    errs = {k: v[1:] for k, v in res.items() if v[0] == "err"}
+    # the coplanarity test of Polygon.__init__ (np.isclose(n.v, d, rtol=1e-4) with numpy's ABSOLUTE atol=1e-8): how far
+    # are the faces from its decision boundary?  (rounding noise of n.v is ~1e-16 * size)
+    planar_margin = np.inf
+    for f in F:
+        P = V[f]
+        c = np.cross(P[2] - P[1], P[0] - P[1])
+        if np.linalg.norm(c) > 0:
+            nn = c / np.linalg.norm(c)
+            dev = float(np.max(np.abs(P @ nn - nn.dot(P[0]))))
+            tol_f = 1e-8 + 1e-4 * abs(float(nn.dot(P[0])))
+            noise = 1e-15 * float(np.max(np.abs(P)))
+            if dev + noise > 0.05 * tol_f and dev - noise < 20 * tol_f:
+                planar_margin = 0.0
+    coplanar_noise = d >= 2.0 ** 24
+    if scope:
+        for k, e in errs.items():
+            sig = "Polyhedron.%s:raises" % {"area": "surface_area", "face_areas": "get_face_area",
+                                            "inertia": "inertia_tensor"}.get(k, k)
+            if big:
+                sig += ":convex-face-with-flat-corners"
+            elif coplanar_noise and "coplanar" in e[1]:
+                sig += ":absolute-planar-atol-at-scale>=2^24"
+            ctx.fail(sig, "%s raised %s on a valid closed mesh with convex faces" % (k, e[0]), case, e[1])
+
     # ---------------- B: model vs implementation
     eqs = np.array(p._equations)
     for i, f in enumerate(F):
@@ -136,67 +296,168 @@ def eval_case(ctx, case):
         if not (ctx.close_enough(eqs[i, :3], r[:3], 1.0) and ctx.close_enough(eqs[i, 3], r[3], Ls)):
             ctx.disagree("poly.face_equation", case, [i, eqs[i], r])
             break
-    mv = ctx.driver.F("poly.volume", L([[eqs[i, 3], obs["face_areas"][i]] for i in range(len(F))]))[0]
-    if not ctx.close_enough(obs["volume"], mv, Ls ** 3):
-        ctx.disagree("poly.volume", case, [obs["volume"], mv])
-    # ear clipping, face by face, triangle by triangle
-    k = 0
-    for i, f in enumerate(F):
-        try:
-            r = ctx.driver.F("polytri.triangulate", L(list(V[f])))
-        except ModelRaise as e:
-            ctx.disagree("polytri.triangulate", case, [i, "model raised " + e.kind])
-            break
-        nt = r[0]
-        mt = np.array(r[1:]).reshape(nt, 3, 3)
-        it = np.array(list(polytri.triangulate(V[f])))
-        if it.shape != mt.shape or not np.array_equal(it, mt):
-            ctx.disagree("polytri.triangulate", case, [i, it.tolist(), mt.tolist()])
-            break
-    r = ctx.driver.F("poly.measures", L(tri_impl), obs["volume"])
-    m_cen, m_I = np.array(r[0:3]), np.array(r[3:12]).reshape(3, 3)
-    if not ctx.close_enough(obs["centroid"], m_cen, Ls):
-        ctx.disagree("poly.measures:centroid", case, [obs["centroid"], m_cen])
-    if not ctx.close_enough(obs["inertia"], m_I, Ls ** 2 * d ** 3):
-        ctx.disagree("poly.measures:inertia", case, [obs["inertia"], m_I])
+    if "volume" in obs and "face_areas" in obs:
+        mv = ctx.driver.F("poly.volume", L([[eqs[i, 3], obs["face_areas"][i]] for i in range(len(F))]))[0]
+        if not ctx.close_enough(obs["volume"], mv, Ls ** 3):
+            ctx.disagree("poly.volume", case, [obs["volume"], mv])
+    # ear clipping, face by face, triangle by triangle (against the implementation's own surface triangulation)
+    if tri_res[0] == "ok":
+        tri_impl = tri_res[1]
+        k = 0
+        for i, f in enumerate(F):
+            try:
+                r = ctx.driver.F("polytri.triangulate", L(list(V[f])))
+            except ModelRaise as e:
+                ctx.disagree("polytri.triangulate", case, [i, "model raised " + e.kind])
+                break
+            nt = r[0]
+            mt = np.array(r[1:]).reshape(nt, 3, 3)
+            it = np.array(tri_impl[k:k + nt]).reshape(-1, 3, 3)
+            k += nt
+            if it.shape != mt.shape or not np.array_equal(it, mt):
+                ctx.disagree("polytri.triangulate", case, [i, it.tolist(), mt.tolist()])
+                break
+        else:
+            if k != len(tri_impl):
+                ctx.disagree("polytri.triangulate:count", case, [k, len(tri_impl)])
+        if "volume" in obs and "centroid" in obs and "inertia" in obs:
+            r = ctx.driver.F("poly.measures", L(tri_impl), obs["volume"])
+            m_cen, m_I = np.array(r[0:3]), np.array(r[3:12]).reshape(3, 3)
+            if not ctx.close_enough(obs["centroid"], m_cen, Ls):
+                ctx.disagree("poly.measures:centroid", case, [obs["centroid"], m_cen])
+            if not ctx.close_enough(obs["inertia"], m_I, Ls ** 2 * d ** 3):
+                ctx.disagree("poly.measures:inertia", case, [obs["inertia"], m_I])
+    # the object-level model: faces in, the five observables (or their error kinds) out
+    aux = [face_aux(V, f) for f in F]
+    if all(a[0] is not None for a in aux):
+        r = ctx.driver.F("poly.object", L([[L(list(V[f])), I(a[0]), L(list(a[1]))] for f, a in zip(F, aux)]))
+        pos = 0
+        st_a = r[pos]; pos += 1
+        if st_a == 0:
+            m_vol, m_area, na = r[pos], r[pos + 1], r[pos + 2]
+            m_fa = np.array(r[pos + 3:pos + 3 + na], dtype=float)
+            pos += 3 + na
+        st_c = r[pos]; pos += 1
+        if st_c == 0:
+            m_cen = np.array(r[pos:pos + 3]); pos += 3
+        st_i = r[pos]; pos += 1
+        if st_i == 0:
+            m_I = np.array(r[pos:pos + 9]).reshape(3, 3); pos += 9
+        impl_a = all(k in obs for k in ("volume", "area", "face_areas"))
+        if planar_margin == 0.0 and ((st_a == 0) != impl_a or (st_i == 0) != ("inertia" in obs)):
+            ctx.skipped_near_boundary += 1          # the coplanarity decision is within rounding of its threshold
+        elif (st_a == 0) != impl_a or ((st_a != 0) and not all(errs.get(k, ("",))[0] == "ValueError"
+                                                              for k in ("volume", "area", "face_areas"))):
+            ctx.disagree("poly.object:areas-status", case, [st_a, {k: v[0] for k, v in errs.items()}])
+        elif st_a == 0 and not (ctx.close_enough(obs["volume"], m_vol, Ls ** 3)
+                                and ctx.close_enough(obs["area"], m_area, Ls ** 2)
+                                and ctx.close_enough(obs["face_areas"], m_fa, Ls ** 2)):
+            ctx.disagree("poly.object:areas", case, [obs["volume"], m_vol, obs["area"], m_area])
+        if (st_c == 0) != ("centroid" in obs) or (st_c != 0 and errs["centroid"][0] != "ValueError"):
+            ctx.disagree("poly.object:centroid-status", case, [st_c, errs.get("centroid")])
+        elif st_c == 0 and not ctx.close_enough(obs["centroid"], m_cen, Ls):
+            ctx.disagree("poly.object:centroid", case, [obs["centroid"], m_cen])
+        if planar_margin == 0.0 and (st_i == 0) != ("inertia" in obs):
+            pass
+        elif (st_i == 0) != ("inertia" in obs) or (st_i != 0 and errs["inertia"][0] != "ValueError"):
+            ctx.disagree("poly.object:inertia-status", case, [st_i, errs.get("inertia")])
+        elif st_i == 0 and not ctx.close_enough(obs["inertia"], m_I, Ls ** 2 * d ** 3):
+            ctx.disagree("poly.object:inertia", case, [obs["inertia"], m_I])
+        ctx.count("object:" + "".join("ok" if s == 0 else "E" for s in (st_a, st_c, st_i)))
+    if not scope:
+        return
+    if big:
+        # the witness of polytri_stuck_fails, exactly: the cap IS strictly convex (exact rational orientation of every
+        # triple (i, i+1, j)), and the Lean model of the ear clipping evaluated over Q raises on it
+        from fractions import Fraction
+        f = max(F, key=len)
+        if np.all(V[f][:, 2] == V[f][0, 2]):
+            X = [int(Fraction(float(V[i][0])) * 2 ** 1100) for i in f]      # exact integers (doubles are dyadic)
+            Y = [int(Fraction(float(V[i][1])) * 2 ** 1100) for i in f]
+            n = len(f)
+            signs = set()
+            for i in range(n):
+                i1 = (i + 1) % n
+                ex, ey = X[i1] - X[i], Y[i1] - Y[i]
+                for j in range(n):
+                    if j != i and j != i1:
+                        o = ex * (Y[j] - Y[i]) - ey * (X[j] - X[i])
+                        signs.add(1 if o > 0 else (-1 if o < 0 else 0))
+            try:
+                ctx.driver.Q("polytri.triangulate", L(list(V[f])))
+                raised = False
+            except ModelRaise as e:
+                raised = e.kind == "ValueError"
+            ctx.count("witness:cap-strictly-convex(exact)=%s,model-over-Q-raises=%s" % (len(signs) == 1 and 0 not in signs,
+                                                                                       raised))
 
     # ---------------- C: implementation vs exact spec
     tets = orient_tets(case["tets"])
     q = ctx.driver.Q("spec.solid", L(tets))
     vol = float(q[0])
     cen = np.array([float(x) for x in q[19:22]])
-    I = np.array([float(x) for x in q[10:19]]).reshape(3, 3)
-    if not ctx.close_enough(obs["volume"], vol, Ls ** 3):
+    Iex = np.array([float(x) for x in q[10:19]]).reshape(3, 3)
+    if "volume" in obs and not ctx.close_enough(obs["volume"], vol, Ls ** 3):
         ctx.fail("Polyhedron.volume:value", "volume differs from the exact integral", case, [obs["volume"], vol])
-    if not ctx.close_enough(obs["centroid"], cen, Ls):
+    if "centroid" in obs and not ctx.close_enough(obs["centroid"], cen, Ls):
         ctx.fail("Polyhedron.centroid:value", "centroid differs from the exact integral", case,
                  [obs["centroid"], cen])
-    if not ctx.close_enough(obs["inertia"], I, Ls ** 2 * d ** 3):
+    if "inertia" in obs and not ctx.close_enough(obs["inertia"], Iex, Ls ** 2 * d ** 3):
         ctx.fail("Polyhedron.inertia_tensor:value", "inertia tensor differs from the exact integral", case,
-                 [obs["inertia"], I])
-    fa = np.array([0.5 * np.linalg.norm(sum(np.cross(V[f[i]], V[f[(i + 1) % len(f)]]) for i in range(len(f))))
-                   for f in F])
+                 [obs["inertia"], Iex])
     # cross products about the face's first vertex for accuracy
     fa = np.array([0.5 * np.linalg.norm(sum(np.cross(V[f[i]] - V[f[0]], V[f[(i + 1) % len(f)]] - V[f[0]])
                                             for i in range(len(f)))) for f in F])
-    if not ctx.close_enough(obs["face_areas"], fa, Ls ** 2):
+    if "face_areas" in obs and not ctx.close_enough(obs["face_areas"], fa, Ls ** 2):
         ctx.fail("Polyhedron.get_face_area:value", "face areas differ from the exact polygon areas", case,
                  [obs["face_areas"], fa])
-    if not ctx.close_enough(obs["area"], float(fa.sum()), Ls ** 2):
+    if "area" in obs and not ctx.close_enough(obs["area"], float(fa.sum()), Ls ** 2):
         ctx.fail("Polyhedron.surface_area:value", "surface area differs from the sum of face areas", case,
                  [obs["area"], float(fa.sum())])
     sel = [0, len(F) - 1]
     try:
+        if "face_areas" not in obs:
+            raise StopIteration
         a_list = np.array(p.get_face_area(sel), dtype=float)
         a_one = np.array(p.get_face_area(len(F) - 1), dtype=float).ravel()
         if not (ctx.close_enough(a_list, fa[sel], Ls ** 2) and ctx.close_enough(a_one, fa[[len(F) - 1]], Ls ** 2)):
             ctx.fail("Polyhedron.get_face_area:forms", "get_face_area(list/int) disagrees", case, [a_list, a_one])
+    except StopIteration:
+        pass
     except Exception as e:
         ctx.fail("Polyhedron.get_face_area:forms", "get_face_area(list/int) raised", case, repr(e))
 
+    # ---------------- certificates: the theorems' hypotheses, evaluated exactly over Q on the implementation's data
+    if tri_res[0] == "ok" and len(tri_res[1]) <= 400:
+        S = tri_res[1]
+        apex = V.mean(axis=0)
+        cone = [np.array([apex, t[0], t[1], t[2]]) for t in S]
+        ck = ctx.driver.Q("chain.check", L([[t[0], t[1], t[2]] for t in S]), L(cone))
+        if bool(ck[0]) and bool(ck[1]) and float(ck[3]) > 0:
+            ctx.count("cert:chain(S)=boundary-of-cone,vol>0:holds")
+        else:
+            ctx.count("cert:chain:FAILS")
+            ctx.fail("Polyhedron._surface_triangulation:closed-chain",
+                     "the implementation's surface triangulation is not a closed positively oriented chain", case,
+                     [bool(ck[0]), bool(ck[1]), float(ck[3])])
+    if tri_res[0] == "ok" and (case.get("exact_planar") or max(map(len, F)) == 3) and "volume" in obs:
+        ok = True
+        for f in F[:60]:
+            pl, ccw, clip = ctx.driver.Q("poly.facecert", L(list(V[f])))
+            ok = ok and pl and ccw and clip
+        # vs' = vs: ConvexPolygon keeps the order of a convex face given counter-clockwise about its own normal
+        for f in F[:8]:
+            cpv = np.array(coxeter.shapes.ConvexPolygon(V[f], planar_tolerance=1e-4).vertices)
+            ok = ok and np.array_equal(cpv, V[f])
+        ctx.count("cert:faces(planar,ccw,n-2,order-kept):" + ("holds" if ok else "not-exact"))
+
 
 def run(ctx):
-    n = ctx.budget(40, 1200)
+    n = ctx.budget(80, 1200)
+    for forced in ("big-ngon", "big-scale"):
+        case = make_mesh(ctx.rng, ctx, force=forced)
+        ctx.case(case)
+        eval_case(ctx, case)
     for _ in range(n):
         case = make_mesh(ctx.rng, ctx)
         ctx.case(case)
